@@ -16,6 +16,9 @@ CLASS_TEXT = {
     "unterm": "\"abc", "paren": "(1",
 }
 
+for _n in (4, 5, 6, 127, 128, 129, 255, 256, 257, 511, 512, 513, 1000, 5000, 32767, 65536):
+    CLASS_TEXT["c%d" % _n] = str(_n)
+
 NEED_LABEL = {"MACRO", "STRUC", "STRUCT", "UNION", "EQU", "=", ":=", "SET", "EVAL", "LABEL", "FUNCTION", "REG",
               "NAMEREG"}
 
@@ -29,6 +32,15 @@ DATA_CANDIDATES = ["DB", "DW", "DD", "DQ", "DT", "DO", "DN", "DC", "DC.B", "DC.W
                    "DATA", "ADDR", "ADDRW", "FB", "FW", "ASCII", "ASCIZ", "DC8", "DW16", "DEFB", "DEFW", "DEFM",
                    "DCT", "DCF", "EMULATED", "PORT", "SFR", ".BYTE", ".WORD", ".LONG", "DM", "DFB", "DFW"] + \
     sorted(RESERVE_OPS)
+
+# candidate spellings of reservation / fill statements (count [, value]); every one is probed in both shapes
+COUNT_CANDIDATES = sorted(RESERVE_OPS | {"DS8", "DS16", "SPACE", ".SPACE", "BLKL", ".BLKW", ".BLKL", "RESB", "RESW", ".RES",
+                                         ".BSS", "BES", "FB", "FW", "DCB", "DCB.B", "DCB.W", "DCB.L", "FILL", ".FILL", "DEFS",
+                                         "DSB", "DSW", "DSL", ".DS", "DM", "PAD", ".ZERO", "BLOCK"})
+# data statements that are probed for the repetition syntaxes  <n> DUP (<v>)  and  [<n>]<v>
+REPEAT_CANDIDATES = ["DB", "DW", "DD", "DQ", "DT", "DN", "DC", "DC.B", "DC.W", "DC.L", "DC.Q", "DC.S", "DC.D", "DC.X", "BYT",
+                     "FCB", "FDB", "FCC", "ADR", "BYTE", "WORD", "LONG", "ADDR", "ADDRW", "DEFB", "DEFW", ".BYTE", ".WORD", ".LONG"]
+ROLE_OF_OP = {"DATA": "data", "DRES": "res", "DFILL": "fill", "DDUP": "dup", "DREP": "rep"}
 
 # the main dialects for the generic statements (CPU, filler instruction)
 DIALECTS = ["z80", "68000", "8051", "16c84", "320c25", "6502", "6809", "8086", "msp430", "320c30",
@@ -57,7 +69,7 @@ OK_ARGS = {
     "IFEXIST": ["\"inc1.inc\""], "IFNEXIST": ["\"inc1.inc\""], "IFB": ["x"], "IFNB": ["x"], "ELSEIF": ["1"],
     "SWITCH": ["1"], "CASE": ["1", "2", "3"],
     "IRP": ["px", "1", "2"], "IRPN": ["1", "px", "1", "2"], "IRPC": ["px", "\"ab\""], "REPT": ["2"], "WHILE": ["0"],
-    "INCLUDE": ["\"inc1.inc\""], "DRES": ["4"],
+    "INCLUDE": ["\"inc1.inc\""], "DRES": ["4"], "DFILL": ["4", "1"],
 }
 SYMLIST_OPS = {"ENUM": "EN", "NEXTENUM": "NE", "EXPORT_SYM": "XS", "EXTERN_SYM": "XT", "SHARED": "SYMX", "FORWARD": "FW",
                "PUBLIC": "PB", "GLOBAL": "GL", "MACRO": "p", "STRUC": "", "STRUCT": "", "UNION": ""}
@@ -125,10 +137,16 @@ def render_stmt(s, cpu, k, g=None, data_mnemonic=None):
         mnem = data_mnemonic or "DB"
     elif op == "DRES":
         mnem = data_mnemonic or "DS"
+    elif op in ("DFILL", "DDUP", "DREP"):
+        mnem = data_mnemonic or {"DFILL": "FB", "DDUP": "DB", "DREP": "DC.B"}[op]
     args = []
     for i in range(1, argc + 1):
         if op == "CPU" and not varied(i):
             args.append(cpu)
+        elif op == "DDUP":       # the count of  <count> DUP (<value>)
+            args.append("%s dup (1)" % (CLASS_TEXT[s["cls"]] if varied(i) else "2"))
+        elif op == "DREP":       # the count of  [<count>]<value>
+            args.append("[%s]1" % (CLASS_TEXT[s["cls"]] if varied(i) else "2"))
         else:
             args.append(arg_text(s, i, op, mnem, k))
     return "%s\t%s\t%s" % (label, mnem.lower(), ",".join(args))
@@ -157,7 +175,8 @@ def case_lines(case, cpu, data_mnemonic=None, k0=0):
 
 
 def case_source(case, cpu, data_mnemonic=None):
-    lines = ["\tcpu\t%s" % cpu, "DEFD\tequ\t1", "SYMX\tequ\t2"]
+    # the program counter is moved off 0 so that ALIGN / padding statements have something to do
+    lines = ["\tcpu\t%s" % cpu, "DEFD\tequ\t1", "SYMX\tequ\t2", "\torg\t1"]
     lines += case_lines(case, cpu, data_mnemonic)
     lines += ["FWDSYM\tequ\t5"]
     return "\n".join(lines) + "\n"
@@ -205,6 +224,40 @@ def probe_data_ops(build, cpus, workers=None):
     for (cpu, mn), r in zip(idx, res):
         if r["rc"] == 0:
             acc.setdefault(cpu, []).append(mn)
+    return acc
+
+
+def probe_ops(build, cpus, workers=None):
+    """One asl run per CPU with one line per (candidate mnemonic, shape); a line without an error message is a
+    statement the CPU accepts in that role.  -> {cpu: {"data": [...], "res": [...], "fill": [...], "dup": [...], "rep": [...]}}"""
+    shapes = []
+    for mn in DATA_CANDIDATES:
+        if mn not in RESERVE_OPS:
+            shapes.append(("data", mn, "\"ab\"" if mn in STRING_DATA else "1"))
+    for mn in COUNT_CANDIDATES:
+        shapes.append(("res", mn, "4"))
+        shapes.append(("fill", mn, "4,1"))
+    for mn in REPEAT_CANDIDATES:
+        shapes.append(("dup", mn, "2 dup (1)"))
+        shapes.append(("rep", mn, "[2]1"))
+    jobs = []
+    for cpu in cpus:
+        src = "\tcpu\t%s\n" % cpu + "".join("\t%s\t%s\n" % (mn.lower(), arg) for (_, mn, arg) in shapes)
+        jobs.append({"files": {"a.asm": src}, "cmd": ["asl", "-q", "a.asm"], "timeout": 30, "keep": 60000})
+    res = c03run.run_jobs(build, jobs, workers)
+    acc = {}
+    for cpu, r in zip(cpus, res):
+        if r["timeout"] or r["rc"] not in (0, 2):
+            continue                       # unknown CPU name / fatal: nothing is claimed about this CPU
+        bad = set(int(m.group(1)) for m in re.finditer(r"a\.asm\((\d+)\)[^\n]*?(?:error|Fehler)", r["err"] + r["out"]))
+        if 1 in bad:
+            continue
+        roles = {}
+        for li, (role, mn, _) in enumerate(shapes, start=2):
+            if li not in bad:
+                roles.setdefault(role, []).append(mn)
+        # a fill statement must not be the reservation with a spurious second argument accepted: keep as is
+        acc[cpu] = roles
     return acc
 
 
